@@ -269,6 +269,81 @@ def _fast_worker(job):
     return dict(violations=rep.violations, inconclusive=rep.inconclusive, errors=rep.harness_errors, samples=rep.samples[:1], stats=explorer.STATS)
 
 
+@guarded
+def _interleave_worker(job):
+    """two fast-packet messages of one addressed PGN from one source to two destinations, their frames interleaved through a
+    frame-level format: each is delivered like its pre-assembled rendering (own payload, own destination)"""
+    from . import explorer
+    explorer.STATS.__init__()
+    R = _G["R"]
+    rep = Report(PID, _G["tier"], 0, "other")
+    n, pgnc, order = job
+    S, Pr = z3.BitVec("src", 8), z3.BitVec("prio", 3)
+    Ds = [z3.BitVec("dst%d" % k, 8) for k in range(2)]
+    seqs = [z3.BitVec("seq%d" % k, 3) for k in range(2)]
+    pays = [[SymInt.var("m%d_%d" % (k, i), 8) for i in range(n)] for k in range(2)]
+    assumptions = [Ds[0] != Ds[1]]
+    pk = [[], []]
+    for k in range(2):
+        fid = z3.Concat(Pr, z3.BitVecVal((pgnc >> 8) & 0x3FF, 10), Ds[k], S)
+        pos = idx = 0
+        while True:
+            hdr = SymInt(z3.ZeroExt(1, z3.Concat(seqs[k], z3.BitVecVal(idx, 5))), 8)
+            body = pays[k][pos:pos + (6 if idx == 0 else 7)]
+            pos += len(body)
+            fr = [hdr] + ([SymInt.lift(n)] if idx == 0 else []) + body
+            idb = [SymInt(z3.ZeroExt(1, z3.Extract(8 * i + 7, 8 * i, z3.ZeroExt(3, fid))), 8) for i in (3, 2, 1, 0)]
+            pad = [SymInt.var("ip%d_%d_%d" % (k, idx, i), 8) for i in range(8 - len(fr))]
+            pk[k].append(SymBytes([0x80 | len(fr)] + idb + fr + pad))
+            idx += 1
+            if pos >= n:
+                break
+    nf = len(pk[0])
+    seqn = [(k, i) for i in range(nf) for k in range(2)] if order == "alternate" else [(0, 0)] + [(1, i) for i in range(nf)] + [(0, i) for i in range(1, nf)]
+
+    def h():
+        dec = R.decoder.NMEA2000Decoder()
+        calls = []
+        dec._call_decode_function = lambda pgn_, pr_, s_, d_, ts_, dat, iso, raw: calls.append((pgn_, pr_, s_, d_, dat)) or "MSG"
+        rets = [(k, i, dec.decode_tcp(pk[k][i])) for k, i in seqn]
+        return rets, calls
+    try:
+        paths, ex = explore(h, max_paths=64, assumptions=assumptions)
+    except Unsupported as e:
+        rep.inconc("interleaved %r: %s" % (job, e))
+        return dict(violations=[], inconclusive=rep.inconclusive, errors=[], samples=[], stats=explorer.STATS)
+    for pa in paths:
+        st0, m0 = satisfiable(z3.And(pa.cond(), *assumptions))
+        if st0 != "sat":
+            continue
+
+        def wit(m):
+            return {"kind": "interleave", "n": n, "pgn": pgnc, "order": order, "src": m.eval(S, True).as_long(), "prio": m.eval(Pr, True).as_long(),
+                    "dst": [m.eval(d_, True).as_long() for d_ in Ds], "seq": [m.eval(q_, True).as_long() for q_ in seqs],
+                    "payloads": [bytes(m.eval(p_.t, True).as_long() & 0xFF for p_ in pays[k]).hex() for k in range(2)]}
+        if pa.kind != "return":
+            rep.violation({"kind": "interleave-raises"}, "raised %r" % (pa.value,), wit(m0))
+            continue
+        rets, calls = pa.value
+        shape_ok = len(calls) == 2 and all((r == "MSG") == (i == nf - 1) for k, i, r in rets)
+        if not shape_ok:
+            rep.violation({"kind": "interleave-delivery"}, "two interleaved transfers to two destinations: %d message(s) delivered frame by frame, 2 when pre-assembled (returns %r)" % (
+                len(calls), [(k, i, r is not None) for k, i, r in rets]), wit(m0))
+            continue
+        done_order = [k for k, i, r in rets if r == "MSG"]
+        cl = []
+        for c_, k in zip(calls, done_order):
+            cl.append(truth(SymInt.lift(c_[3]) == SymInt(z3.ZeroExt(1, Ds[k]), 8)))
+            cl.append(truth(SymInt.lift(c_[2]) == SymInt(z3.ZeroExt(1, S), 8)))
+            cl += [truth(SymInt.lift(c_[4][n - 1 - j]) == pays[k][j]) for j in range(n)] if len(c_[4]) == n else [z3.BoolVal(False)]
+        st, m = prove(z3.And(*cl), assumptions + pa.pc, label="interleaved-destinations")
+        if st == "sat":
+            rep.violation({"kind": "interleave-differs"}, "interleaved transfers to two destinations: a delivered message does not carry its own payload / destination", wit(m))
+        elif st == "unknown":
+            rep.inconc("interleaved %r undecided" % (job,))
+    return dict(violations=rep.violations, inconclusive=rep.inconclusive, errors=rep.harness_errors, samples=[], stats=explorer.STATS)
+
+
 def run(tier, seed):
     from . import explorer
     rep = Report(PID, tier, seed, "other")
@@ -288,6 +363,9 @@ def run(tier, seed):
     fjobs = [(n_, fp[0]) for n_ in fl] + [(13, 126720), (14, 126720)]
     run_jobs(rep, _worker, jobs, timeout_s=400 if tier == "quick" else 1500)
     run_jobs(rep, _fast_worker, fjobs, timeout_s=400 if tier == "quick" else 3600)
+    ijobs = [(13, 126720, "alternate"), (13, 126720, "nested"), (20, 126208, "alternate")]
+    run_jobs(rep, _interleave_worker, ijobs, timeout_s=400)
+    rep.count("interleaved_destination_jobs", len(ijobs))
     rep.count("single_frame_jobs", len(jobs))
     rep.count("fast_jobs", len(fjobs))
     rep.coverage.update(explanation="bounded symbolic verification of the five input front-ends: %d (format, length, variant) jobs over a symbolic identifier, symbolic data bytes "
@@ -296,7 +374,40 @@ def run(tier, seed):
     return rep.finish(replay)
 
 
+def replay_interleave(r):
+    from .plain import plain
+    N = plain()
+    n, pgn = r["n"], r["pgn"]
+    pk = [[], []]
+    for k in range(2):
+        pay = bytes.fromhex(r["payloads"][k])
+        fid = (r["prio"] << 26) | (((pgn >> 8) & 0x3FF) << 16) | (r["dst"][k] << 8) | r["src"]
+        pos = idx = 0
+        while True:
+            body = pay[pos:pos + (6 if idx == 0 else 7)]
+            pos += len(body)
+            fr = bytes([(r["seq"][k] << 5) | idx]) + (bytes([n]) if idx == 0 else b"") + body
+            pk[k].append(bytes([0x80 | len(fr)]) + fid.to_bytes(4, "big") + fr + b"\xff" * (8 - len(fr)))
+            idx += 1
+            if pos >= n:
+                break
+    nf = len(pk[0])
+    seqn = [(k, i) for i in range(nf) for k in range(2)] if r["order"] == "alternate" else [(0, 0)] + [(1, i) for i in range(nf)] + [(0, i) for i in range(1, nf)]
+    dec = N.decoder.NMEA2000Decoder()
+    calls = []
+    dec._call_decode_function = lambda pgn_, pr_, s_, d_, ts_, dat, iso, raw: calls.append((d_, bytes(dat)[::-1])) or "MSG"
+    try:
+        for k, i in seqn:
+            dec.decode_tcp(pk[k][i])
+    except Exception as e:
+        return True, "raised %r" % (e,)
+    want = sorted((r["dst"][k], bytes.fromhex(r["payloads"][k])) for k in range(2))
+    return sorted(calls) != want, "delivered %r, sent %r" % ([(d, p.hex()) for d, p in calls], [(d, p.hex()) for d, p in want])
+
+
 def replay(r):
+    if r.get("kind") == "interleave":
+        return replay_interleave(r)
     from .plain import plain
     N = plain()
     if r["kind"] == "input":
